@@ -1,5 +1,6 @@
 import RtenVerif.Lemmas.Layout
 import RtenVerif.Lemmas.Slice
+import RtenVerif.Lemmas.Perm
 
 /-!
 # C09 — Layout transformations match a reference array model
@@ -185,6 +186,79 @@ theorem c09_remove_axis (v : View) (k : Nat) (s : Nat → α) :
         _ = offset v.dims (idx.insertIdx k 0) := by rw [e2]
   · rw [if_neg hc, if_neg hc]; rfl
 
+theorem getD_map_lt {β γ : Type} (f : β → γ) (l : List β) (k : Nat) (hk : k < l.length) (dflt : γ) :
+    (l.map f).getD k dflt = f l[k] := by
+  simp [List.getD_eq_getElem?_getD, List.getElem?_eq_getElem hk]
+
+theorem isPerm_eq (n : Nat) (p : List Nat) : NArr.isPerm n p = isValidPermutation n p := by
+  simp only [NArr.isPerm, isValidPermutation, List.count_eq_length_filter]
+
+/-- **C09.T1 permute**: same array, or both panic (invalid permutation). -/
+theorem c09_permute (v : View) (p : List Nat) (s : Nat → α) :
+    (permuted v p).map (fun v' => denote v' s) = (denote v s).permute p := by
+  unfold permuted NArr.permute
+  have hr : (denote v s).rank = v.dims.length := by simp [NArr.rank, denote]
+  have hsh : (denote v s).shape = sizes v.dims := rfl
+  rw [hr, hsh, isPerm_eq]
+  by_cases hc : isValidPermutation v.dims.length p = true
+  · rw [if_pos hc, if_pos hc]
+    simp only [Except.map]
+    congr 1
+    have hperm := perm_of_valid _ _ hc
+    have hlen : p.length = v.dims.length := hperm.length_eq.trans List.length_range
+    have hnd : p.Nodup := hperm.nodup_iff.mpr List.nodup_range
+    have hmem : ∀ d, d < v.dims.length → d ∈ p :=
+      fun d hd => hperm.mem_iff.mpr (List.mem_range.mpr hd)
+    have hun : ∀ idx k, k < v.dims.length →
+        (NArr.unperm p idx).getD k 0 = idx.getD (p.idxOf k) 0 := by
+      intro idx k hk
+      unfold NArr.unperm
+      rw [getD_map_lt _ _ _ (by simpa [hlen] using hk)]
+      simp
+    apply denote_refines v _ s (NArr.unperm p)
+    · show sizes (permuteIter v.dims p) = _
+      simp only [permuteIter, sizes, List.map_map]
+      apply List.map_congr_left
+      intro d _
+      have := sizes_getD v.dims d
+      simp only [sizes] at this
+      simp only [Function.comp]
+      exact this.symm
+    · intro idx h
+      rw [validIdx_iff] at h ⊢
+      obtain ⟨hl, hk⟩ := h
+      simp only [List.length_map] at hl hk
+      refine ⟨by simp [NArr.unperm, hlen], ?_⟩
+      intro d hd
+      simp only [sizes_length] at hd
+      rw [hun idx d hd]
+      have hj : p.idxOf d < p.length := List.idxOf_lt_length_of_mem (hmem d hd)
+      have := hk (p.idxOf d) hj
+      rw [getD_map_lt _ _ _ hj, List.getElem_idxOf hj] at this
+      exact this
+    · intro idx _
+      show v.base + offset (permuteIter v.dims p) idx = _
+      congr 1
+      let G : Nat → Nat := fun d => idx.getD (p.idxOf d) 0 * (v.dims.getD d (0, 0)).2
+      have h1 : offset (permuteIter v.dims p) idx = (p.map G).sum := by
+        rw [offset_eq_sum]
+        congr 1
+        apply List.ext_getElem
+        · simp [permuteIter]
+        · intro k h1 h2
+          simp only [List.length_map, List.length_range, permuteIter] at h1 h2
+          simp only [List.getElem_map, List.getElem_range, permuteIter, G]
+          rw [getD_map_lt _ _ _ h2, hnd.idxOf_getElem k h2]
+      have h2 : offset v.dims (NArr.unperm p idx) = ((List.range v.dims.length).map G).sum := by
+        rw [offset_eq_sum]
+        congr 1
+        apply List.map_congr_left
+        intro k hk
+        rw [hun idx k (List.mem_range.mp hk)]
+      rw [h1, h2]
+      exact (hperm.map G).sum_nat
+  · rw [if_neg hc, if_neg hc]; rfl
+
 /-- The storage window of a view is long enough for its layout (`from_storage_and_layout`'s
 invariant). -/
 def WF (v : View) : Prop := minDataLen v.dims ≤ v.len
@@ -286,18 +360,21 @@ theorem c09_index_axis (v : View) (axis index : Nat) (s : Nat → α) (hwf : WF 
 /-- The view operations covered by a T1 theorem above. -/
 inductive VOp
   | tr
+  | perm (p : List Nat)
   | mv (src dst : Nat)
   | ia (k : Nat)
   | ra (k : Nat)
 
 def VOp.applyL : VOp → View → Except Err View
   | .tr, v => .ok (transposed v)
+  | .perm p, v => permuted v p
   | .mv a b, v => moveAxis v a b
   | .ia k, v => insertAxis v k
   | .ra k, v => removeAxis v k
 
 def VOp.applyR : VOp → NArr α → Except Err (NArr α)
   | .tr, A => .ok A.transpose
+  | .perm p, A => A.permute p
   | .mv a b, A => A.moveAxis a b
   | .ia k, A => A.insertAxis k
   | .ra k, A => A.removeAxis k
@@ -306,6 +383,7 @@ theorem c09_step (op : VOp) (v : View) (s : Nat → α) :
     (op.applyL v).map (fun v' => denote v' s) = op.applyR (denote v s) := by
   cases op with
   | tr => simp only [VOp.applyL, VOp.applyR, Except.map, c09_transpose]
+  | perm p => exact c09_permute v p s
   | mv a b => exact c09_move_axis v a b s
   | ia k => exact c09_insert_axis v k s
   | ra k => exact c09_remove_axis v k s
